@@ -613,7 +613,7 @@ Proof.
   induction l as [|c t IH]; intros s; cbn [run_callbacks]; [cbn; discriminate|].
   pose proof (run_cb_not_empty fuel codes e c s) as N.
   destruct (run_cb fuel codes e c s) as [s1 r]. cbn [snd] in N.
-  destruct r; try (cbn; congruence). apply IH.
+  destruct r; try (cbn; congruence); apply IH.
 Qed.
 
 (* step answers REmpty only on an empty agenda *)
@@ -688,12 +688,16 @@ Definition ex_s4 := fst (step 10 ex_codes ex_s3).
 
 (* the urgent process start is processed first although it was inserted last, then the two timeouts in
    insertion order: an execution to which urgent_first, same_class_fifo and pop_order apply *)
+Lemma kstep_intro fuel codes s m :
+  pop_min (agenda s) = Some (m, remove_eid (e_eid m) (agenda s)) -> ktrans codes s (Some m) (fst (step fuel codes s)).
+Proof. intros H. eapply KStep; [apply surjective_pairing|exact H]. Qed.
+
 Example ex_exec : exec ex_codes ex_s1 ([] ++ Some ex_a :: [Some ex_b1; Some ex_b2]) ex_s4.
 Proof.
   cbn [app].
-  econstructor; [eapply KStep with (fuel := 10%nat); [apply surjective_pairing|vm_compute; reflexivity]|].
-  econstructor; [eapply KStep with (fuel := 10%nat); [apply surjective_pairing|vm_compute; reflexivity]|].
-  econstructor; [eapply KStep with (fuel := 10%nat); [apply surjective_pairing|vm_compute; reflexivity]|].
+  apply exec_cons with (s1 := ex_s2); [unfold ex_s2; apply kstep_intro; vm_compute; reflexivity|].
+  apply exec_cons with (s1 := ex_s3); [unfold ex_s3; apply kstep_intro; vm_compute; reflexivity|].
+  apply exec_cons with (s1 := ex_s4); [unfold ex_s4; apply kstep_intro; vm_compute; reflexivity|].
   constructor.
 Qed.
 
@@ -712,5 +716,7 @@ Qed.
 Example ex_negative : do_call ex_codes (CTimeout (-1 # 2) VNone) ex_s1 = (ex_s1, Fail (kexn EValue M_negative_delay)).
 Proof. apply negative_delay_refused. reflexivity. Qed.
 
-Example ex_run_drains : exists s', run 50 ex_codes UNone ex_s1 = (s', ROk) /\ now s' == 1.
-Proof. eexists. split; [vm_compute; reflexivity|vm_compute; reflexivity]. Qed.
+Example ex_run_drains :
+  snd (run 50 ex_codes UNone ex_s1) = ROk /\ now (fst (run 50 ex_codes UNone ex_s1)) == 1 /\
+  agenda (fst (run 50 ex_codes UNone ex_s1)) = [].
+Proof. split; [vm_compute; reflexivity|split; vm_compute; reflexivity]. Qed.
